@@ -31,12 +31,18 @@ func (m *Manager) DAIncluderLoop(ctx context.Context, errCh chan<- error) {
 			if daIncluded {
 				m.logger.Debug("both header and data are DA-included, advancing height: ", nextHeight)
 				if err := m.SetRollkitHeightToDAHeight(ctx, nextHeight); err != nil {
-					errCh <- fmt.Errorf("failed to set rollkit height to DA height: %w", err)
+					select {
+					case errCh <- fmt.Errorf("failed to set rollkit height to DA height: %w", err):
+					default: // an error is already pending, only the first one is propagated
+					}
 					return
 				}
 				// Both header and data are DA-included, so we can advance the height
 				if err := m.incrementDAIncludedHeight(ctx); err != nil {
-					errCh <- fmt.Errorf("error while incrementing DA included height: %w", err)
+					select {
+					case errCh <- fmt.Errorf("error while incrementing DA included height: %w", err):
+					default: // an error is already pending, only the first one is propagated
+					}
 					return
 				}
 
